@@ -40,7 +40,14 @@ def env_st(draw, cents, nmax_pts=4):
     nuc = [[c + draw(st.floats(-1, 1, allow_nan=False)) * draw(st.integers(0, 1)) for c in cents[draw(st.integers(0, len(cents) - 1))]]
            for _ in range(nn)]
     # keep evaluation points off the nuclei (ESP would be infinite there)
-    pts = [[p[0] + (0.37 if p in nuc else 0.0), p[1], p[2]] for p in pts]
+    def clear(p):
+        for _ in range(20):
+            if all(sum((a - b) ** 2 for a, b in zip(p, c)) > 0.05 ** 2 for c in nuc):
+                return p
+            p = [p[0] + 0.37, p[1] + 0.11, p[2]]
+        return p
+
+    pts = [clear(p) for p in pts]
     q = [draw(gen.log_uniform(0.3, 20.0)) * (1 if draw(st.booleans()) else -1) for _ in range(nn)]
     orders = draw(st.lists(st.tuples(*[st.integers(0, 3)] * 3), min_size=1, max_size=3))
     return {"points": pts, "nuc_coords": nuc, "nuc_charges": q,
@@ -77,7 +84,7 @@ def judge_types(case):
     cart_shells = [dict(s, type="cartesian") for s in shells]
     bc = mk_basis(cart_shells)
     base = {}
-    scc = quant.Scales(bc, env)
+    scc = quant.Scales(bc, env, shells=cart_shells)
     n = len(shells)
     if any(len(s["coeffs"][0]) >= 2 and s["l"] >= 2 for s in shells):
         v.nontrivial = True
@@ -121,7 +128,7 @@ def judge_types(case):
     T = np.array(case["transform"], dtype=float)
     G2 = np.array(case["G2"], dtype=float)
     bt = mk_basis(shells)
-    sct = quant.Scales(bt, env)
+    sct = quant.Scales(bt, env, shells=shells)
     if T.shape[0] != T.shape[1]:
         v.nontrivial = True
         v.classes.append("rectangular-T")
@@ -224,7 +231,7 @@ def judge_conv(case):
     v = Verdict(nontrivial=any(s["l"] >= 1 for s in shells))
     quants = quant.ERI if case["eri"] else quant.INDEXED + quant.DENSITY
     bd = mk_basis(shells)
-    scd = quant.Scales(bd, env)
+    scd = quant.Scales(bd, env, shells=shells)
     bcv = [mk_shell(s, cls=conv_class(c, lab)) for s, (c, lab) in zip(shells, convs)]
     C = conv_matrix(shells, convs)
     n = C.shape[0]
